@@ -419,7 +419,12 @@ class REPEX_state:
         """Set numpy random generator state from restart."""
         # one child has been spawned per issued job: the completed steps
         # plus the jobs that were in flight when the file was written.
-        n_jobs = self.cstep + len(self.config["current"].get("locked", []))
+        # When recorded jobs were dropped by a restart with only a few
+        # steps left, the sum is too low and the file records the count.
+        n_jobs = self.config["current"].get(
+            "rng_spawned",
+            self.cstep + len(self.config["current"].get("locked", [])),
+        )
         seed_sequence = np.random.SeedSequence(
             entropy=self.config["simulation"]["seed"],
             n_children_spawned=n_jobs,
@@ -787,6 +792,15 @@ class REPEX_state:
             )
         self.config["current"]["locked"] = locked_ep
         self.config["current"]["rng_state"] = self.rgen.bit_generator.state
+        # One child stream is spawned per issued job, normally the completed
+        # steps plus the jobs in flight. After a restart that dropped
+        # recorded jobs (fewer steps left than jobs) the sum is too low
+        # and later jobs would repeat streams: record the count then.
+        spawned = int(self.rgen.bit_generator._seed_seq.n_children_spawned)
+        if spawned != self.cstep + len(locked_ep):
+            self.config["current"]["rng_spawned"] = spawned
+        else:
+            self.config["current"].pop("rng_spawned", None)
 
         # save accumulative fracs
         self.config["current"]["frac"] = {}
